@@ -2435,6 +2435,13 @@ class SchemaValidator:
             # It doesn't make a difference at the moment, but it will.
             referenced_object_type = self._resolve_global_ref(field)
 
+            # a checkpoint that validation generated itself is not something the document can refer to
+            if referenced_object_type is not None and any(
+                referenced_object_type is checkpoint
+                for checkpoint in self._generated_checkpoints
+            ):
+                referenced_object_type = None
+
         if referenced_object_type is None:
             return [
                 f"{self._context(path)}: invalid ref: object not found: {json.dumps(field)}"
